@@ -137,6 +137,11 @@ func HarnessC06Bind() {
 			zz.Cover("other-claims-xr")
 		}
 		xr.Object["spec"] = spec
+		if zz.Bool("xr.clientSideApplied") {
+			// last written with client-side apply: the managed-fields upgrade to
+			// server-side apply has not begun for it
+			xr.SetManagedFields([]metav1.ManagedFieldsEntry{{Manager: "crossplane", Operation: metav1.ManagedFieldsOperationUpdate}})
+		}
 		s.Put(xr)
 		if xrState == 3 {
 			otherBefore = runtime.DeepCopyJSON(s.Doc("example.org", "XR", "", "xr-pre"))
